@@ -176,7 +176,7 @@ theorem scan_inv (E : Env) (tp : Tp) : ∀ (l : List Nat) (s : St), Inv E s →
     split
     · rename_i hnone
       have := inv_append_om E { s with oms := markExpired tp.now e s.oms }
-        { entity := e, epoch := E.entityEpoch e, certified := false, expired := false,
+        { entity := e, epoch := E.entityEpoch e, msg := tp.newmsg, certified := false, expired := false,
           expiresAt := (E.timeout e).map (· + tp.now) } h1
         (fun x hx => findOm_none hnone x hx) rfl
         (by simpa [hav e (by simp)] using hcl)
@@ -249,37 +249,143 @@ theorem createCertificate_seen (E : Env) (s : St) (e : Nat) : (createCertificate
   repeat' split
   all_goals rfl
 
+/-- the invariant only reads the open messages, the certificates and the two ghost epochs -/
+theorem inv_of_core (E : Env) {s s' : St} (h : Inv E s) (h1 : s'.oms = s.oms) (h2 : s'.certs = s.certs)
+    (h3 : s'.cleaned = s.cleaned) (h4 : s'.seen = s.seen) : Inv E s' := by
+  unfold Inv at *
+  rw [h1, h2, h3, h4]; exact h
+
 theorem inv_rt (E : Env) (s : St) (r : Rt) (h : Inv E s) : Inv E { s with rt := r } := h
 
 theorem inv_seen (E : Env) (s : St) (n : Nat) (h : Inv E s) (hn : s.seen ≤ n) : Inv E { s with seen := n } := by
   obtain ⟨j1, j2, j3, j5, j4⟩ := h
   exact ⟨j1, j2, j3, j5, Nat.le_trans j4 hn⟩
 
-/-- epoch clean-up together with the bump of `seen` -/
-theorem inv_clean (E : Env) (s : St) (ep : Nat) (h : Inv E s) (hs : s.seen ≤ ep) :
-    Inv E { s with oms := s.oms.filter (fun o => decide (ep ≤ o.epoch)), cleaned := max s.cleaned ep, seen := ep } := by
+/-- epoch clean-up (inside `epochInit`) together with the bump of `seen` -/
+theorem inv_clean (E : Env) (s : St) (tp : Tp) (h : Inv E s) (hs : s.seen ≤ tp.epoch) :
+    Inv E { epochInit s tp with seen := tp.epoch } := by
   obtain ⟨j1, j2, j3, j5, j4⟩ := h
   refine ⟨?_, j2.sublist List.filter_sublist, ?_, j5, ?_⟩
   · intro c hc e he
     rcases j1 c hc e he with ⟨o, ho, h1, h2⟩ | hlt
-    · by_cases hk : ep ≤ o.epoch
+    · by_cases hk : tp.epoch ≤ o.epoch
       · exact Or.inl ⟨o, List.mem_filter.mpr ⟨ho, by simpa using hk⟩, h1, h2⟩
       · right
         have := (j3 o ho).1
         rw [h1] at this
-        show E.entityEpoch e < max s.cleaned ep
+        show E.entityEpoch e < max s.cleaned tp.epoch
         omega
-    · right; show E.entityEpoch e < max s.cleaned ep; omega
+    · right; show E.entityEpoch e < max s.cleaned tp.epoch; omega
   · intro o ho
     obtain ⟨ho1, ho2⟩ := List.mem_filter.mp ho
-    have hk : ep ≤ o.epoch := by simpa using ho2
+    have hk : tp.epoch ≤ o.epoch := by simpa using ho2
     have := j3 o ho1
-    exact ⟨this.1, by show max s.cleaned ep ≤ o.epoch; omega⟩
-  · show max s.cleaned ep ≤ ep; omega
+    exact ⟨this.1, by show max s.cleaned tp.epoch ≤ o.epoch; omega⟩
+  · show max s.cleaned tp.epoch ≤ tp.epoch; omega
+
+/-! signatures, buffer, registrations: outside the invariant's footprint -/
+
+theorem storeSig_core (s : St) (e : Nat) (g : Sig) :
+    (storeSig s e g).oms = s.oms ∧ (storeSig s e g).certs = s.certs ∧
+    (storeSig s e g).cleaned = s.cleaned ∧ (storeSig s e g).seen = s.seen := ⟨rfl, rfl, rfl, rfl⟩
+
+theorem handOverGo_core (e : Nat) : ∀ (l : List BufSig) (s : St) (r : List Nat),
+    (handOverGo s e l r).1.oms = s.oms ∧ (handOverGo s e l r).1.certs = s.certs ∧
+    (handOverGo s e l r).1.cleaned = s.cleaned ∧ (handOverGo s e l r).1.seen = s.seen ∧
+    (handOverGo s e l r).1.rt = s.rt := by
+  intro l
+  induction l with
+  | nil => intro s r; exact ⟨rfl, rfl, rfl, rfl, rfl⟩
+  | cons b rest ih =>
+    intro s r
+    simp only [handOverGo]
+    split
+    · have := ih (storeSig s e b.sig) (b.sig.party :: r)
+      exact this
+    · exact ih s r
+    · exact ⟨rfl, rfl, rfl, rfl, rfl⟩
+
+theorem handOver_core (E : Env) (s : St) (e : Nat) :
+    (handOver E s e).1.oms = s.oms ∧ (handOver E s e).1.certs = s.certs ∧
+    (handOver E s e).1.cleaned = s.cleaned ∧ (handOver E s e).1.seen = s.seen ∧ (handOver E s e).1.rt = s.rt := by
+  unfold handOver
+  have h := handOverGo_core e ((s.buf.filter (·.disc = E.entityDisc e)).reverse) s []
+  dsimp only
+  split
+  · rename_i s1 removed heq
+    rw [heq] at h
+    exact h
+  · rename_i s1 heq
+    rw [heq] at h
+    exact h
+
+theorem registerSig_inv (E : Env) (s : St) (e : Nat) (g : Sig) (h : Inv E s) : Inv E (registerSig E s e g) := by
+  unfold registerSig
+  split
+  · exact inv_of_core E h rfl rfl rfl rfl
+  · exact inv_of_core E h rfl rfl rfl rfl
+  · exact h
+
+theorem register_inv (E : Env) (s : St) (k p : Nat) (h : Inv E s) : Inv E (register s k p) := by
+  unfold register
+  split
+  · exact inv_of_core E h rfl rfl rfl rfl
+  · exact h
+
+theorem expire_mono : Mono (fun o => { o with expiresAt := some 0 }) := fun _ => ⟨rfl, rfl, fun h => h⟩
 
 /-- well-formed tick input: epochs never go back, and the entities offered belong to the epoch -/
 def Wf (E : Env) (s : St) (tp : Tp) : Prop :=
   s.seen ≤ tp.epoch ∧ ∀ e ∈ tp.avail, E.entityEpoch e = tp.epoch
+
+theorem idleStep_inv (E : Env) (s : St) (tp : Tp) (last : Option Nat) (h : Inv E s) (hseen : s.seen ≤ tp.epoch) :
+    Inv E { idleStep s tp last with seen := tp.epoch } := by
+  have hc := inv_clean E s tp h hseen
+  have hn := inv_seen E s tp.epoch h hseen
+  unfold idleStep
+  dsimp only
+  cases hrun : (last.isNone || last.any (· < tp.epoch))
+  · simp only [Bool.false_and, Bool.false_eq_true, if_false]
+    repeat' split
+    all_goals exact hn
+  · simp only [Bool.true_and, if_true]
+    repeat' split
+    all_goals exact hc
+
+theorem readyStep_core (E : Env) (s : St) (tp : Tp) :
+    (readyStep E s tp).oms = (scan E tp tp.avail s.oms).1 ∧ (readyStep E s tp).certs = s.certs ∧
+    (readyStep E s tp).cleaned = s.cleaned ∧ (readyStep E s tp).seen = s.seen := by
+  unfold readyStep
+  split
+  · rename_i oms' e heq
+    rw [heq]
+    dsimp only
+    split
+    · exact ⟨rfl, rfl, rfl, rfl⟩
+    · have hcore := handOver_core E { s with oms := oms' } e
+      split
+      · rename_i s2 heq2
+        rw [heq2] at hcore
+        exact ⟨hcore.1, hcore.2.1, hcore.2.2.1, hcore.2.2.2.1⟩
+      · rename_i s2 heq2
+        rw [heq2] at hcore
+        exact ⟨hcore.1, hcore.2.1, hcore.2.2.1, hcore.2.2.2.1⟩
+  · rename_i oms' heq
+    rw [heq]
+    exact ⟨rfl, rfl, rfl, rfl⟩
+
+theorem signingStep_inv (E : Env) (s : St) (tp : Tp) (ep e : Nat) (h : Inv E s) (hseen : s.seen ≤ tp.epoch) :
+    Inv E { signingStep E s tp ep e with seen := tp.epoch } := by
+  have h1 := inv_markExpired E s tp.now e h
+  have hA := inv_seen E _ tp.epoch h1 hseen
+  have hB := inv_seen E _ tp.epoch (createCertificate_inv E _ e h1)
+    (by rw [createCertificate_seen]; exact hseen)
+  unfold signingStep
+  dsimp only
+  repeat' split
+  all_goals first
+    | exact hA
+    | exact hB
 
 theorem tick_inv (E : Env) (s : St) (tp : Tp) (h : Inv E s) (hw : Wf E s tp) :
     Inv E { tick E s tp with seen := tp.epoch } := by
@@ -287,42 +393,15 @@ theorem tick_inv (E : Env) (s : St) (tp : Tp) (h : Inv E s) (hw : Wf E s tp) :
   have hcl : s.cleaned ≤ tp.epoch := Nat.le_trans h.2.2.2.2 hseen
   unfold tick
   split
-  · -- idle
-    rename_i last
-    split
-    · have hc := inv_clean E s tp.epoch h hseen
-      dsimp only
-      repeat' split
-      all_goals exact hc
-    · have hc := inv_seen E s tp.epoch h hseen
-      dsimp only
-      repeat' split
-      all_goals exact hc
-  · -- blocked
-    split <;> exact inv_seen E _ tp.epoch h hseen
-  · -- ready
-    split
+  · exact idleStep_inv E s tp _ h hseen
+  · split <;> exact inv_seen E _ tp.epoch h hseen
+  · split
     · exact inv_seen E _ tp.epoch h hseen
     · have hsc := scan_inv E tp tp.avail s h hav hcl
-      have := inv_seen E _ tp.epoch hsc hseen
-      dsimp only
-      split <;> exact this
-  · -- signing
-    rename_i ep e hrt
-    have h1 := inv_markExpired E s tp.now e h
-    have hA := inv_seen E _ tp.epoch h1 hseen
-    have hB := inv_seen E _ tp.epoch (createCertificate_inv E _ e h1)
-      (by rw [createCertificate_seen]; exact hseen)
-    dsimp only
-    repeat' split
-    all_goals first
-      | exact hA
-      | exact hB
-
-theorem registerSig_inv (E : Env) (s : St) (e p : Nat) (h : Inv E s) : Inv E (registerSig s e p) := by
-  unfold registerSig
-  repeat' split
-  all_goals exact h
+      have hA := inv_seen E _ tp.epoch hsc hseen
+      have hcore := readyStep_core E s tp
+      exact inv_of_core E hA hcore.1 hcore.2.1 hcore.2.2.1 rfl
+  · exact signingStep_inv E s tp _ _ h hseen
 
 /-- events with their well-formedness condition -/
 def EvWf (E : Env) (s : St) : Event → Prop
@@ -332,7 +411,9 @@ def EvWf (E : Env) (s : St) : Event → Prop
 theorem step_inv (E : Env) (s : St) (ev : Event) (h : Inv E s) (hw : EvWf E s ev) : Inv E (step E s ev) := by
   cases ev with
   | tick tp => exact tick_inv E s tp h hw
-  | signature e p => exact registerSig_inv E s e p h
+  | signature e g => exact registerSig_inv E s e g h
+  | register k p => exact register_inv E s k p h
+  | expire e => exact inv_updOm E s e _ expire_mono h
   | restart => exact h
 
 /-- runs: every event is well formed in the state it meets -/
@@ -346,51 +427,18 @@ theorem run_inv (E : Env) : ∀ (evs : List Event) (s : St), Inv E s → RunWf E
   | nil => intro s h _; exact h
   | cons ev r ih => intro s h hw; exact ih _ (step_inv E s ev h hw.1) hw.2
 
-/-- **No signed entity is certified twice**, along any run of ticks, signature arrivals and
-restarts between ticks, from any state satisfying the invariant (e.g. right after genesis). -/
+/-- **No signed entity is certified twice**, along any run of ticks, signature arrivals (direct or
+buffered), registrations, expiries and restarts between ticks, from any state satisfying the
+invariant (e.g. right after genesis). -/
 theorem no_double_certification (E : Env) (s : St) (evs : List Event) (h : Inv E s) (hw : RunWf E s evs) :
     ∀ c1 ∈ (evs.foldl (step E) s).certs, ∀ c2 ∈ (evs.foldl (step E) s).certs,
       ∀ e, c1.entity = some e → c2.entity = some e → c1 = c2 :=
   (run_inv E evs s h hw).2.2.2.1
 
 /-- the initial state after a genesis certificate satisfies the invariant -/
-theorem inv_init (E : Env) (gEpoch : Nat) :
-    Inv E { rt := .idle none, oms := [], certs := [{ id := 0, entity := none, epoch := gEpoch, parent := none }],
-            sigs := [], cleaned := 0, seen := 0 } := by
-  refine ⟨?_, List.Pairwise.nil, by simp, ?_, Nat.le_refl _⟩
-  · intro c hc e he; simp at hc; subst hc; simp at he
-  · intro c1 hc1 c2 hc2 e h1 h2; simp at hc1; subst hc1; simp at h1
-
-#print axioms no_double_certification
-end Agg
-
-namespace Agg
-
-/-- a crash between the certificate insert and the open-message update (C15) -/
-def createCertificateCrash (E : Env) (s : St) (e : Nat) : St :=
-  match findOm e s.oms with
-  | none => s
-  | some o =>
-    if o.certified || o.expired then s
-    else match master s.certs o.epoch with
-      | none => s
-      | some m =>
-        if E.quorum e ((s.sigs.filter (·.1 = e)).map (·.2)) then
-          { s with certs := s.certs ++ [{ id := s.certs.length, entity := some e, epoch := o.epoch, parent := some m.id }],
-                   rt := .idle none }   -- process dies, restarts
-        else s
-
-def E1 : Env := { entityEpoch := fun _ => 2, quorum := fun _ _ => true, timeout := fun _ => none }
-def s1 : St :=
-  { rt := .signing 2 7, oms := [{ entity := 7, epoch := 2, certified := false, expired := false, expiresAt := none }],
-    certs := [{ id := 0, entity := none, epoch := 1, parent := none }], sigs := [(7, 1)], cleaned := 0, seen := 2 }
-def tp2 : Tp := { epoch := 2, now := 0, avail := [7] }
-
-/-- after such a crash the restarted aggregator certifies the same entity again -/
-theorem crash_double_certificate :
-    let s2 := createCertificateCrash E1 s1 7
-    let s3 := [Event.tick tp2, .tick tp2, .tick tp2].foldl (step E1) s2
-    (s3.certs.filter (fun c => c.entity = some 7)).length = 2 := by
-  decide
+theorem inv_init (E : Env) (n g : Nat) : Inv E (init n g) := by
+  refine ⟨?_, List.Pairwise.nil, by simp [init], ?_, Nat.le_refl _⟩
+  · intro c hc e he; simp [init] at hc; subst hc; simp at he
+  · intro c1 hc1 c2 hc2 e h1 h2; simp [init] at hc1; subst hc1; simp at h1
 
 end Agg
